@@ -314,7 +314,11 @@ def submit_transfer(w, idx):
         info['expected'] = w.s3.objects[(BUCKET, key)]
         dst = t.get('dst', 'path')
         if dst in ('path', 'special'):
-            p = os.path.join(w.scratch.path, f'dst{idx}')
+            name = f'dst{idx}'
+            if t.get('name_len'):          # destination base names up to the file system's limit
+                name = name + 'x' * (t['name_len'] - len(name))
+            info['name'] = name
+            p = os.path.join(w.scratch.path, name)
             info['path'] = p
             if t.get('preexisting') is not None:
                 with open(p, 'wb') as f:
